@@ -132,13 +132,37 @@ func checkC14(p *Prog, r *Report) {
 			}
 			e := emission{token: tok, in: in}
 			for _, f := range FactsAt(in) {
-				if c, ok := f.Cond.(*ssa.Call); ok {
-					if fo := calleeOf(c); fo != nil {
-						if rp, rt := recvTypeName(fo); rp == pkgOpts && rt == "Options" {
-							e.guard = append(e.guard, f)
-							serialised[fo.Name()] = true
+				cond := f.Cond
+				// `o.X() != 0` / `o.X() == 0` on an int accessor counts as the accessor atom
+				if bo, ok := cond.(*ssa.BinOp); ok && (bo.Op == token.NEQ || bo.Op == token.EQL) {
+					if k, isK := constInt(bo.Y); isK && k == 0 {
+						if _, isCall := bo.X.(*ssa.Call); isCall {
+							cond = bo.X
+							if bo.Op == token.EQL {
+								f.Val = !f.Val
+							}
 						}
 					}
+				}
+				recognised := false
+				if c, ok := cond.(*ssa.Call); ok {
+					if fo := calleeOf(c); fo != nil {
+						if rp, rt := recvTypeName(fo); rp == pkgOpts && rt == "Options" {
+							f.Cond = c
+							e.guard = append(e.guard, f)
+							serialised[fo.Name()] = true
+							recognised = true
+						}
+					}
+				}
+				if !recognised {
+					// the only other condition in ServerOptions is `argstr != "-"`
+					if bo, ok := cond.(*ssa.BinOp); ok {
+						if s, isS := constStr(bo.Y); isS && s == "-" {
+							continue
+						}
+					}
+					r.Unk("C14/ROUNDTRIP", "emission of "+tok+" under an unrecognised condition", p.Pos(instrPos(in)), "ServerOptions emits this token under a condition that is not a plain option accessor; the round-trip table cannot be composed")
 				}
 			}
 			ems = append(ems, e)
